@@ -105,7 +105,36 @@ def rule_stopping(repo, rep):
   R = 'R-GUARD:lsml-stopping-criteria'
   rep.rule(R, 'the main loop is left early only on the documented criteria: '
            'gradient norm below tol, or no improving step (M_best is None)')
-  f = repo.get_func('lsml._BaseLSML._fit')
+  f0 = repo.get_func('lsml._BaseLSML._fit')
+  # roles: the gradient (result of self._gradient), its norm, the metric
+  # handed to components_from_metric and the best candidate it is replaced by
+  roles = {}
+  for n in ast.walk(f0.node):
+    if isinstance(n, ast.Assign) and isinstance(n.targets[0], ast.Name) and \
+            isinstance(n.value, ast.Call):
+      if ast.unparse(n.value.func) == 'self._gradient':
+        roles[n.targets[0].id] = 'grad'
+  gname = next((k for k, v in roles.items() if v == 'grad'), None)
+  for n in ast.walk(f0.node):
+    if isinstance(n, ast.Assign) and isinstance(n.targets[0], ast.Name) and \
+            isinstance(n.value, ast.Call) and \
+            (repo.dotted(f0.module, n.value.func) or '').endswith(
+                'linalg.norm') and len(n.value.args) == 1 and \
+            ast.unparse(n.value.args[0]) == gname:
+      roles[n.targets[0].id] = 'grad_norm'
+  st0 = [n for n in ast.walk(f0.node) if isinstance(n, ast.Assign) and
+         ast.unparse(n.targets[0]) == 'self.components_']
+  if st0 and isinstance(st0[-1].value, ast.Call) and st0[-1].value.args and \
+          isinstance(st0[-1].value.args[0], ast.Name):
+    Mn = st0[-1].value.args[0].id
+    for (n, v) in guards.assignments(f0.node, Mn):
+      if isinstance(v, ast.Name):
+        roles[v.id] = 'M_best'
+  f = astutil.role_view(f0, roles)
+  if f is None:
+    rep.unknown(R, 'lsml._BaseLSML._fit', site(f0), 'roles %s cannot be given '
+                'canonical names' % roles)
+    return
   loops = [n for n in ast.walk(f.node) if isinstance(n, ast.For) and
            'max_iter' in ast.unparse(n.iter)]
   if len(loops) != 1:
@@ -273,9 +302,50 @@ def rule_formulas(repo, rep):
            'v_cd v_cd^T in _gradient are the derivatives of that loss term '
            'with respect to d_ab and d_cd (derived symbolically), plus '
            'M0^-1 - M^-1')
-  fl = repo.get_func('lsml._BaseLSML._comparison_loss')
-  fg = repo.get_func('lsml._BaseLSML._gradient')
+  fl0 = repo.get_func('lsml._BaseLSML._comparison_loss')
+  fg0 = repo.get_func('lsml._BaseLSML._gradient')
   ft = repo.get_func('lsml._BaseLSML._total_loss')
+
+  def mask_roles(fn, left, right):
+    r = {}
+    for n in ast.walk(fn.node):
+      if isinstance(n, ast.Assign) and isinstance(n.targets[0], ast.Name) and \
+              isinstance(n.value, ast.Compare) and len(n.value.ops) == 1 and \
+              isinstance(n.value.left, ast.Name) and \
+              isinstance(n.value.comparators[0], ast.Name):
+        a, b = n.value.left.id, n.value.comparators[0].id
+        if isinstance(n.value.ops[0], (ast.Lt, ast.LtE)):
+          a, b = b, a
+        r[n.targets[0].id] = 'violations'
+        r[a], r[b] = left, right
+    return r
+  rl = mask_roles(fl0, 'dab', 'dcd')
+  rg = mask_roles(fg0, 'dabs', 'dcds')
+  # loop variables of the zip: named after the sequence they run over
+  inv = {v: k for k, v in rg.items()}
+  for n in ast.walk(fg0.node):
+    if isinstance(n, ast.For) and isinstance(n.target, ast.Tuple) and \
+            isinstance(n.iter, ast.Call) and \
+            isinstance(n.iter.func, ast.Name) and n.iter.func.id == 'zip':
+      for t, a in zip(n.target.elts, n.iter.args):
+        base = a.value if isinstance(a, ast.Subscript) else a
+        bt = ast.unparse(base)
+        if isinstance(t, ast.Name):
+          if bt == inv.get('dabs'):
+            rg[t.id] = 'dab'
+          elif bt == inv.get('dcds'):
+            rg[t.id] = 'dcd'
+          elif bt == 'self.w_':
+            rg[t.id] = 'w'
+  retg = [r for r in ast.walk(fg0.node) if isinstance(r, ast.Return)]
+  if retg and isinstance(retg[-1].value, ast.Name):
+    rg[retg[-1].value.id] = 'dMetric'
+  fl = astutil.role_view(fl0, rl)
+  fg = astutil.role_view(fg0, rg)
+  if fl is None or fg is None:
+    rep.unknown(R, 'lsml._BaseLSML._gradient', site(fg0), 'roles cannot be '
+                'given canonical names (%s / %s)' % (rl, rg))
+    return
   sa, sc = Rat.sym('sa'), Rat.sym('sc')
   env = {'dab[violations]': sa * sa, 'dcd[violations]': sc * sc,
          'dab': sa * sa, 'dcd': sc * sc}
@@ -307,6 +377,28 @@ def rule_formulas(repo, rep):
           else 'refuted', site(fl), '' if okv else 'violated constraints are '
           '%s, documented d_ab > d_cd' % (ast.unparse(vio[0]) if vio else None))
   # regulariser
+  # roles in _total_loss: (sign, logdet) = slogdet(metric); reg_loss = the
+  # local added to the comparison loss in the return
+  rt = {}
+  for n in ast.walk(ft.node):
+    if isinstance(n, ast.Assign) and isinstance(n.targets[0], ast.Tuple) and \
+            isinstance(n.value, ast.Call) and \
+            (repo.dotted(ft.module, n.value.func) or '').endswith(
+                'linalg.slogdet') and len(n.targets[0].elts) == 2 and \
+            all(isinstance(e, ast.Name) for e in n.targets[0].elts):
+      rt[n.targets[0].elts[0].id] = 'sign'
+      rt[n.targets[0].elts[1].id] = 'logdet'
+    if isinstance(n, ast.Return) and isinstance(n.value, ast.BinOp) and \
+            isinstance(n.value.op, ast.Add):
+      for side in (n.value.left, n.value.right):
+        if isinstance(side, ast.Name):
+          rt[side.id] = 'reg_loss'
+  ftv = astutil.role_view(ft, rt)
+  if ftv is None:
+    rep.unknown(R, 'lsml._BaseLSML._total_loss:regulariser', site(ft),
+                'roles %s cannot be given canonical names' % rt)
+    return
+  ft = ftv
   reg = [v for (n, v) in guards.assignments(ft.node, 'reg_loss')
          if v is not None]
   okr = reg and ast.unparse(reg[0]) in (
